@@ -499,6 +499,8 @@ pub struct Socket<'a> {
     remote_last_ack: Option<TcpSeqNumber>,
     /// The last window length sent.
     remote_last_win: u16,
+    /// Whether the last window length was sent in a SYN segment, i.e. unscaled.
+    remote_last_win_unscaled: bool,
     /// The sending window scaling factor advertised to remotes which support RFC 1323.
     /// It is zero if the window <= 64KiB and/or the remote does not support it.
     remote_win_shift: u8,
@@ -603,6 +605,7 @@ impl<'a> Socket<'a> {
             remote_last_seq: TcpSeqNumber::default(),
             remote_last_ack: None,
             remote_last_win: 0,
+            remote_last_win_unscaled: false,
             remote_win_len: 0,
             remote_win_shift: rx_cap_log2.saturating_sub(16) as u8,
             remote_win_scale: None,
@@ -918,6 +921,7 @@ impl<'a> Socket<'a> {
         self.remote_last_seq = TcpSeqNumber::default();
         self.remote_last_ack = None;
         self.remote_last_win = 0;
+        self.remote_last_win_unscaled = false;
         self.remote_win_len = 0;
         self.remote_win_scale = None;
         self.remote_win_shift = rx_cap_log2.saturating_sub(16) as u8;
@@ -1490,6 +1494,7 @@ impl<'a> Socket<'a> {
         // segments, is right-shifted by [advertised scale value] bits[...]
         reply_repr.window_len = self.scaled_window();
         self.remote_last_win = reply_repr.window_len;
+        self.remote_last_win_unscaled = false;
 
         // If the remote supports selective acknowledgement, add the option to the outgoing
         // segment.
@@ -1704,7 +1709,13 @@ impl<'a> Socket<'a> {
 
         let window_start = self.remote_seq_no + self.rx_buffer.len();
         let window_end = if let Some(last_ack) = self.remote_last_ack {
-            last_ack + ((self.remote_last_win as usize) << self.remote_win_shift)
+            // The window field of a SYN segment is never scaled.
+            let shift = if self.remote_last_win_unscaled {
+                0
+            } else {
+                self.remote_win_shift
+            };
+            last_ack + ((self.remote_last_win as usize) << shift)
         } else {
             window_start
         };
@@ -2782,6 +2793,7 @@ impl<'a> Socket<'a> {
             .max(repr.seq_number + repr.segment_len());
         self.remote_last_ack = repr.ack_number;
         self.remote_last_win = repr.window_len;
+        self.remote_last_win_unscaled = repr.control == TcpControl::Syn;
 
         if repr.segment_len() > 0 {
             self.rtte
